@@ -216,7 +216,11 @@ fn parse_into(text: &str, path: &str, include_dir: &str, unit: &mut Unit) -> Res
                     let mut sub = Unit::default();
                     unit.includes.push((path.to_string(), p.clone()));
                     parse_into(&t, &p, include_dir, &mut sub)?;
-                    unit.rules.extend(sub.rules);
+                    match cur.as_mut() {
+                        // inside a target: rules of the file apply to this target only
+                        Some(tg) => tg.rules.extend(sub.rules),
+                        None => unit.rules.extend(sub.rules),
+                    }
                 }
             }
             "rewrite" | "type" | "dropstmt" | "stmt" | "forloop" => {
